@@ -28,6 +28,9 @@ WORLDS = [
     [(3, 77.0, [1.0, 2.0]), (10, 88.8, [3.0, 4.0])],
     [(7, 60.0, [10.0, 20.0, 30.0])],
     [(2, 90.5, [(10.0, 1), (20.5, 2), (30.0, 2)]), (3, 50.0, [(5.5, 2)])],
+    # labels only at coordinate 0 (an already-trimmed one-label molecule; coincident labels at 0); a label exactly at ContigLength
+    [(4, 30.0, [0.0]), (6, 40.0, [0.0, 0.0]), (9, 25.0, [])],
+    [(5, 70.0, [0.0, 70.0]), (8, 60.4, [60.0])],
 ]
 
 
@@ -173,7 +176,7 @@ def check_reuse(wa, wb, calls, acc):
 class Reuse(core.Layer):
     def __init__(self, name, optional=False):
         self.name, self.optional = name, optional
-        self.items = [(i, (i + 1) % 7) for i in range(7)]
+        self.items = [(i, (i + 1) % len(WORLDS)) for i in range(len(WORLDS)) if i != 7]
         self.bounds = dict(file_pairs=len(self.items), calls_per_reader=2, files=2, id_filters='all subsets + absent id + none', entries=['references', 'queries'])
         self.rule = '%d file pairs x every ordered pair of calls (file, id filter) with entry points references-then-queries and queries-then-references, on one reader' % len(self.items)
 
